@@ -28,6 +28,34 @@ The fragment (`Sim.FragStmt` / `FragBlock` / `FragOperand(s)` in `Proofs/SimStmt
   `brk` anywhere in their bodies (inside `ite`, inside a matrix body, …).
 Not covered: routine definitions, calls (user routines and built-ins) and `return`; the `repeat`
 forms with an index variable or over lights/groups/locations.
+
+The full statement (`gen_sim`, DESIGN §6 C01), of which the theorems below are the part proved:
+
+    theorem C01_gen_sim (b : Block) (hwf : WellFormed b) (code : List Instr)
+        (hcode : Gen.genProgram b = some code) (f : Nat) (lights : List Light) (σ' : S)
+        (h : Sem.run f b lights = (.normal, σ')) :
+        ∃ k, (run (Loader.load code) k (Vm.init lights)).status = .halted ∧
+          (Vm.finish (run (Loader.load code) k (Vm.init lights))).trace = .flush :: σ'.vm.trace
+
+for every well-formed script `b` (all statement forms, routines defined anywhere at top level).
+`C01_gen_sim_loaded` is exactly this statement with `WellFormed` replaced by `Sim.FragBlock`.
+What is missing for the full statement:
+* calls: the calling sequence (`C03_call_sequence`) lifted to `Sim` with an activation
+  (`σ.locals = activation s.stack` instead of `σ.locals = none`), the outcome `ret`, and value
+  positions whose evaluation changes the state (`[call]`, calls inside `{…}`);
+* routine definitions: the loader's relocation of the main segment around extracted routines;
+* the index-variable and iterator forms of `repeat` (`range`, `interp`, `cycle`, `all`, `groups`,
+  `locations`, `iter`): the arithmetic of `Sem.execLoop`'s `series` against the generated
+  increment code, and the discovery instructions with names on the evaluation stack.
+Restrictions of the fragment that are forced by the MODEL (source semantics and machine disagree
+outside them; see the examples at the end of `Proofs/SimStmts.lean`'s header below):
+* `Sem` does not model the `result` register, the generated code uses it as scratch: a script
+  that READS `result` (`print result` after `print 5`; a `printf` field `{result}`) sees the
+  scratch value on the machine and the unmodelled one in `Sem`;
+* `printf` with more arguments than positional fields: the machine writes only the last values
+  and keeps the others pending, `Sem` writes them all;
+* `setReg .unitMode v` (not produced by the parser, which emits `units m`): the machine's
+  `MOVEQ … unit_mode` converts the colour registers, `Sem`'s `setReg` does not.
 -/
 namespace Bardolph
 open Vm VmSteps Sem Gen Sim
